@@ -3,7 +3,10 @@
 package websocket
 
 import (
+	"math"
+
 	"github.com/aukilabs/hagall-common/messages/dagazpb"
+	"github.com/aukilabs/hagall-common/messages/hagallpb"
 	"github.com/aukilabs/hagall/internal/verifnd"
 )
 
@@ -38,26 +41,36 @@ func VerifC08Dagaz() {
 	verifnd.Reach("C08.kind." + kindName(kind))
 }
 
-// VerifC08DagazAbsent: the ground-plane messages with every pattern of absent points (present points have
-// concrete coordinates, so no float reasoning is involved): no panic.
+// VerifC08DagazAbsent: the ground-plane messages with every pattern of absent points and of points with
+// special coordinates (NaN, infinities, 3e38); present points have concrete coordinates, so no float reasoning
+// is involved (the bit-precise harnesses are in modules/dagaz): no panic, and the module's lock is released.
 func VerifC08DagazAbsent() {
 	w := newVWorld(vModDagaz)
 	c := w.newConn()
 	c.mustJoin("")
 	c.drain()
-	pt := func() *dagazpb.Point {
-		if verifnd.Bool() {
-			return &dagazpb.Point{X: 0.5, Y: 0, Z: 0.5}
+	nan, inf := float32(math.NaN()), float32(math.Inf(1))
+	special := func(k int, ord float32) *dagazpb.Point {
+		switch k {
+		case 0:
+			return nil
+		case 1:
+			return &dagazpb.Point{X: ord, Y: 0, Z: ord}
+		case 2:
+			return &dagazpb.Point{X: nan, Y: 0, Z: ord}
+		case 3:
+			return &dagazpb.Point{X: inf, Y: nan, Z: -inf}
+		default:
+			return &dagazpb.Point{X: 3e38, Y: 0, Z: -3e38}
 		}
-		return nil
 	}
-	ext := func() *dagazpb.Point {
-		if verifnd.Bool() {
-			return &dagazpb.Point{X: 0.25, Y: 0, Z: 0.25}
-		}
-		return nil
-	}
+	// every point is absent, ordinary, or carries NaN / infinite / huge finite coordinates (through the whole
+	// handler path: decoding, the module's lock, the grid)
+	pt := func() *dagazpb.Point { return special(verifnd.Choice(5), 0.5) }
+	ext := func() *dagazpb.Point { return special(verifnd.Choice(5), 0.25) }
 	kind := verifnd.Choice(4)
+	// whatever the coordinates, the handler returns (it holds the session's ground-plane lock meanwhile)
+	verifnd.Terminates(3000000, "C08.dagaz.handler_returns")
 	switch kind {
 	case 0:
 		n := 1 + verifnd.Choice(2)
@@ -77,5 +90,13 @@ func VerifC08DagazAbsent() {
 	case 3:
 		c.do(&dagazpb.DagazGetDebugInfoRequest{Type: dagazpb.MsgType_MSG_TYPE_DAGAZ_GET_DEBUG_INFO_REQUEST, RequestId: 1})
 	}
+	verifnd.Terminates(0, "")
+	// the session's ground-plane state stays usable by the other member (lock released, grid consistent)
+	c.drain()
+	c2 := w.newConn()
+	c2.mustJoin(c.sid)
+	c2.drain()
+	c2.do(&dagazpb.DagazGetRegionRequest{Type: dagazpb.MsgType_MSG_TYPE_DAGAZ_GET_REGION_REQUEST, Timestamp: vts(), RequestId: 2, Min: &dagazpb.Point{X: -1e6, Z: -1e6}, Max: &dagazpb.Point{X: 1e6, Z: 1e6}})
+	verifnd.Assert(countType(c2.drain(), hagallpb.MsgType(dagazpb.MsgType_MSG_TYPE_DAGAZ_GET_REGION_RESPONSE)) == 1, "C08.dagaz.other_member_still_served")
 	verifnd.Reach("C08.dagaz_absent.done")
 }
